@@ -45,8 +45,8 @@ func (p *Program) parserScope() []*ssa.Function {
 func (p *Program) staticCallSites(fn *ssa.Function) []ssa.CallInstruction {
 	var out []ssa.CallInstruction
 	for f := range p.AllFunctions() {
-		if f.Blocks == nil {
-			continue
+		if f.Blocks == nil || f.Synthetic != "" {
+			continue // wrappers for promoted methods are not call sites of their own
 		}
 		allInstrs(f, func(ins ssa.Instruction) {
 			if ci, ok := ins.(ssa.CallInstruction); ok && staticCallee(ci.Common()) == fn {
